@@ -216,7 +216,7 @@ PROPS = {
     "C19": dict(
         lean_props="Receptor.Props.C19",
         engines=[dict(engine="redact", pkg="pkg/workceptor", test="TestVerifRedact", n_quick=250, n_thorough=2500)],
-        corr_ops={"redact": ["submit"]},
+        corr_ops={"redact": ["submit", "history"]},
         facts=["redact_test", "redact_alloc_test", "redact_alloc_order", "redact_cfr_source", "redact_unredacted_users"],
         trusted=["strings.ToLower on keys is modelled for ASCII (no non-ASCII rune lower-cases into the prefix 'secret_')",
                  "Kubernetes units have their own redaction (KubeConfig/KubePod), outside this property's anchors"],
